@@ -160,6 +160,11 @@ func (a *AvahiProvider) Announce(serviceName string, port int, txt []string) err
 	a.mux.Lock()
 	defer a.mux.Unlock()
 
+	return a.announce(serviceName, port, txt)
+}
+
+// announce the service, a.mux has to be held by the caller
+func (a *AvahiProvider) announce(serviceName string, port int, txt []string) error {
 	// store the data for reconnection
 	a.mdnsServiceData = &mdnsServiceData{
 		Name: serviceName,
@@ -225,18 +230,14 @@ func (a *AvahiProvider) avahiCallback(event avahi.Event) {
 	// the server was shutdown, set it to nil so we don't try to call free functions
 	// on shutting down a currently running resolve
 	cb := a.resolveCB
-	var serviceData *mdnsServiceData
-	if a.mdnsServiceData != nil {
-		serviceData = a.mdnsServiceData
-	}
 	a.mux.Unlock()
 
 	// try to reconnect until successull
-	go a.attemptReconnect(cb, serviceData)
+	go a.attemptReconnect(cb)
 }
 
 // attempt to reconnect to the avahi daemon endlessly
-func (a *AvahiProvider) attemptReconnect(cb api.MdnsResolveCB, serviceData *mdnsServiceData) {
+func (a *AvahiProvider) attemptReconnect(cb api.MdnsResolveCB) {
 	for {
 		a.mux.Lock()
 		isManualShutdown := a.manualShutdown
@@ -253,11 +254,14 @@ func (a *AvahiProvider) attemptReconnect(cb api.MdnsResolveCB, serviceData *mdns
 
 		logging.Log().Debug("mdns: avahi - reconnected")
 
-		if serviceData != nil {
-			if err := a.Announce(serviceData.Name, serviceData.Port, serviceData.Txt); err != nil {
+		// announce what is requested now, not what was announced when the connection got lost
+		a.mux.Lock()
+		if serviceData := a.mdnsServiceData; serviceData != nil {
+			if err := a.announce(serviceData.Name, serviceData.Port, serviceData.Txt); err != nil {
 				logging.Log().Debug("mdns: avahi - error re-announcing service:", err)
 			}
 		}
+		a.mux.Unlock()
 
 		return
 	}
